@@ -286,7 +286,17 @@ def _check_invariant_helper(ctx, res: RuleResult):
         else:
             darg = target.node.args[1]
             if isinstance(darg, ast.Name):
-                darg = single_def(gfm.node, darg.id) or darg
+                d0 = single_def(gfm.node, darg.id)
+                if d0 is None and darg.id in params_of(gfm.node):
+                    # a parameter of graph_from_molecule that no caller passes: its default
+                    a_ = gfm.node.args
+                    pos_ = [x.arg for x in a_.posonlyargs + a_.args]
+                    dflt_ = dict(zip(pos_[len(pos_) - len(a_.defaults):], a_.defaults))
+                    from .common import unpassed_defaults
+                    if darg.id in dflt_ and not any(cs.kind == "tucan" and cs.target.fq == gfm.fq and (len(cs.node.args) > pos_.index(darg.id) or any(k.arg in (darg.id, None) for k in cs.node.keywords))
+                                                    for g_ in ctx.cg.funcs.values() for cs in ctx.cg.sites.get(g_.fq, [])):
+                        d0 = dflt_[darg.id]
+                darg = d0 or darg
             defs = J.ev(darg, {}, E, gfm)
             J.call(fi, [atoms, defs])
     except AnalysisError as ex:
